@@ -9,6 +9,7 @@ import TTModel.Heap
 import TTModel.Guard
 import TTModel.Sweep
 import TTModel.Kernels
+import TTModel.Cross
 import TTModel.Scalar
 /-!
 # Line-protocol driver: one operation per input line, one canonical outcome per output line.
@@ -311,6 +312,18 @@ def run : PM String := do
       let (_, P) ← dense; let x ← core; let y ← core
       let r := Kern.phiBckX (fun a c => P [a,c]) x y
       pure (showDense [x.r0, y.r0] (fun i => r (i.getD 0 0) (i.getD 1 0)))
+  | "leftupdate" => do
+      let k ← nat; let L ← many k natList; let n ← nat; let piv ← natList
+      pure s!"set {Cross.leftUpdate L.toList n piv}"
+  | "rightupdate" => do
+      let k ← nat; let R ← many k natList; let r ← nat; let piv ← natList
+      pure s!"set {Cross.rightUpdate R.toList r piv}"
+  | "rightinit" => do
+      let k ← nat; let R ← many k natList; let n ← nat; let piv ← natList
+      pure s!"set {Cross.rightInit R.toList n piv}"
+  | "evalindex" => do
+      let k ← nat; let L ← many k natList; let n1 ← nat; let n2 ← nat; let k2 ← nat; let R ← many k2 natList
+      pure s!"set {Cross.evalIndex L.toList n1 n2 R.toList}"
   | "reshapemodes" => do
       let src ← natList; let dst ← natList
       match Sweep.reshapeModes src dst with
